@@ -280,10 +280,13 @@ def killedOutsideLoop (a : Actor) : M :=
   andThen (handleSignal a) fun a => finish a (.terminated a.id false .killed)
 
 /-- `Signal::Kill` observed inside the message loop (`ActorLoopResult::signal`): the loop returns
-`Ok((state, Some("killed"), was_killed = true, ports))`, `post_stop` is skipped and
-`processing_loop` returns `Ok(exit_reason)`: `ActorTerminated(_, Some(state), "killed")`. -/
+`Ok((state, Some("killed"), was_killed = true, ports))`, the status becomes `Stopping`, `post_stop`
+is skipped and `processing_loop` returns `Err(ActorErr::Cancelled)`:
+`ActorTerminated(_, None, "killed")`. (Before the repair `fix: report no state when an actor is
+killed inside its message loop` this path returned `Ok(exit_reason)` and the event carried
+`Some(state)` — the former finding `c04.kill-state`.) -/
 def killedInLoop (a : Actor) : M :=
-  andThen (handleSignal a) fun a => finish (a.setStatus .stopping) (.terminated a.id true .killed)
+  andThen (handleSignal a) fun a => finish (a.setStatus .stopping) (.terminated a.id false .killed)
 
 /-- The loop ended with `ActorLoopResult::stop(r)`: status `Stopping`, `post_stop` is entered. -/
 def enterPostStop (a : Actor) (r : Reason) : M :=
@@ -762,17 +765,15 @@ structure St where
   drainReq : Bool := false
   deriving DecidableEq, Repr, Inhabited
 
-/-- Is the terminal event `e` the right one for what the trace shows? `strict` additionally
-demands "kill ⇒ no state" (the documented contract; the code violates it for a kill observed
-inside the message loop, see `Props/C04.lean`). -/
-def classify (strict : Bool) (s : St) : SupEv → Except String Unit
+/-- Is the terminal event `e` the right one for what the trace shows? -/
+def classify (s : St) : SupEv → Except String Unit
   | .started _ => .ok ()
   | .failed _ p n => if s.fail = some (p, n) then .ok () else .error "c04.failed-text"
   | .terminated _ hasState r =>
     match r with
     | .killed =>
       if !s.killed then .error "c04.killed-without-kill"
-      else if strict && hasState then .error "c04.kill-state"
+      else if hasState then .error "c04.kill-state"
       else .ok ()
     | .cancelled =>
       if s.aborted && !hasState then .ok () else .error "c04.cancelled-class"
@@ -782,14 +783,14 @@ def classify (strict : Bool) (s : St) : SupEv → Except String Unit
       else if s.stopReason = some r || (r = .drained && s.drainReq) then .ok ()
       else .error "c04.reason"
 
-def next (strict : Bool) (me : Nat) (s : St) : Ev → Except String St
+def next (me : Nat) (s : St) : Ev → Except String St
   | .emit to e =>
     if e.who ≠ me then .error "c04.who"
     else if s.sup ≠ some to then .error "c04.target"
     else if s.preFailed then .error "c04.event-after-pre_start-failure"
     else if s.terminalEmitted then .error "c04.after-terminal"
     else if e.isTerminal then
-      match classify strict s e with
+      match classify s e with
       | .ok () => .ok { s with terminalEmitted := true }
       | .error c => .error c
     else if s.startedEmitted then .error "c04.started-twice"
@@ -821,10 +822,8 @@ def next (strict : Bool) (me : Nat) (s : St) : Ev → Except String St
     else if s.sup.isSome && !s.terminalEmitted then .error "c04.missing-terminal" else .ok s
   | _ => .ok s
 
-def okWith (strict : Bool) (me : Nat) (tr : List Ev) : Bool := (accepts (next strict me) {} tr).isOk
-
 /-- The property as stated. -/
-def ok (me : Nat) (tr : List Ev) : Bool := okWith true me tr
+def ok (me : Nat) (tr : List Ev) : Bool := (accepts (next me) {} tr).isOk
 
 end C04
 
